@@ -425,7 +425,7 @@ func malformed(g *GenCtx) {
 
 // ---------------------------------------------------------------- run
 
-const nVar = 3
+const nVar = 4
 
 type obj struct{ v [nVar]cipher.AEAD }
 
@@ -462,6 +462,13 @@ func (o *obj) seal(ad, p []byte) ([]byte, bool) {
 	p2 := append([]byte{}, p...)
 	r2 := o.v[2].Seal(d2, nil, p2, ad)
 	ok = ok && len(r2) == len(prefix)+len(r0) && bytes.Equal(r2[:len(prefix)], prefix) && bytes.Equal(r2[len(prefix):], r0) && bytes.Equal(p2, p)
+	// 3: one array holds a header followed by the plaintext; dst is the header (the crypto/cipher
+	// "exact overlap" pattern Seal(buf[:hdr], nil, buf[hdr:], ad))
+	b3 := make([]byte, len(prefix)+len(p), len(prefix)+len(p)+kravatte.TagSize)
+	copy(b3, prefix)
+	copy(b3[len(prefix):], p)
+	r3 := o.v[3].Seal(b3[:len(prefix)], nil, b3[len(prefix):], ad)
+	ok = ok && len(r3) == len(prefix)+len(r0) && bytes.Equal(r3[:len(prefix)], prefix) && bytes.Equal(r3[len(prefix):], r0)
 	return r0, ok
 }
 
@@ -488,6 +495,15 @@ func (o *obj) open(ad, ct []byte) ([]byte, bool, bool) {
 	ok = ok && (e0 == nil) == (e2 == nil) && bytes.Equal(c2, ct)
 	if e0 == nil && e2 == nil {
 		ok = ok && len(r2) == len(prefix)+len(r0) && bytes.Equal(r2[:len(prefix)], prefix) && bytes.Equal(r2[len(prefix):], r0)
+	}
+	// 3: header and ciphertext in one array; dst is the header (exact overlap behind it)
+	b3 := make([]byte, len(prefix)+len(ct))
+	copy(b3, prefix)
+	copy(b3[len(prefix):], ct)
+	r3, e3 := o.v[3].Open(b3[:len(prefix)], nil, b3[len(prefix):], ad)
+	ok = ok && (e0 == nil) == (e3 == nil)
+	if e0 == nil && e3 == nil {
+		ok = ok && len(r3) == len(prefix)+len(r0) && bytes.Equal(r3[:len(prefix)], prefix) && bytes.Equal(r3[len(prefix):], r0)
 	}
 	return r0, e0 == nil, ok
 }
